@@ -570,8 +570,21 @@ def rule_inverse_blocks(ctx: Ctx) -> None:
         if tags:
             seq.append((st, tags))
     got = [t for _, t in seq]
+    # the sign pass reads the sign vector as it is when it runs; multiplying generators afterwards (tab_row_sum: the "Eliminate Zs" row
+    # reduction) changes signs again, so nothing that touches the tableau may follow it
+    xs = [st for st, t in seq if t == {"X"}]
+    if xs:
+        after = fn.body[fn.body.index(xs[-1]) + 1:]
+        late = [c for st in after for c in calls_in(st) if (call_attr(c) or getattr(c.func, "id", "")) in ("tab_row_sum", "row_sum", "tab_row_swap")
+                or (call_name(c) or "").startswith("transform.")]
+        if late:
+            ctx.fail("inverse.blocks", m, late[0],
+                     f"inverse_circuit reads the signs and emits its X corrections before `{short(late[0], 60)}` (line {late[0].lineno}) has run: a row that is still "
+                     f"±Z_j Z_k when the signs are read gets its X on the wrong qubit, and the row reduction that follows changes the signs once more",
+                     func="inverse_circuit", construct="inverse_circuit: tableau modified after the sign pass")
+            return
     if got == INVERSE_BLOCKS:
-        ctx.ok("inverse.blocks", m, fn, what="passes H, CNOT, CZ, P, H, X each in its own sweep, in this order")
+        ctx.ok("inverse.blocks", m, fn, what="passes H, CNOT, CZ, P, H, X each in its own sweep, in this order; nothing touches the tableau after the sign pass")
         return
     merged = [(st, t) for st, t in seq if len(t) > 1]
     if merged:
@@ -649,6 +662,7 @@ def _edit_pauli_at(src: str) -> str:
 
 
 KNOCKOUTS = [
+    Knockout("sign-pass-before-last-row-reduction", STABF, sub_once("    # Eliminate Zs\n    for j in range(n_qubits):\n        for k in range(j + 1, n_qubits):\n            if tableau.x_matrix[k, j] == 0 and tableau.z_matrix[k, j] == 1:\n                tableau = tab_row_sum(tableau, j, k)\n\n    # Eliminate phase\n    for i in np.nonzero(tableau.phase)[0]:\n        tableau = transform.x_gate(tableau, i)\n        circuit_list.append((\"X\", int(i)))\n", "    # Eliminate phase\n    for i in np.nonzero(tableau.phase)[0]:\n        tableau = transform.x_gate(tableau, i)\n        circuit_list.append((\"X\", int(i)))\n\n    # Eliminate Zs\n    for j in range(n_qubits):\n        for k in range(j + 1, n_qubits):\n            if tableau.x_matrix[k, j] == 0 and tableau.z_matrix[k, j] == 1:\n                tableau = tab_row_sum(tableau, j, k)\n"), "inverse.blocks", "after the sign pass"),
     Knockout("canonical-form-skipped-for-unit-diagonal", STABF, sub_once("    tableau = canonical_form(tableau)\n", "    if not np.all(np.diag(tableau.x_matrix) == 1):\n        tableau = canonical_form(tableau)\n"), "inverse.canonical-first", "conditional"),
     Knockout("cnot-block-helper-misses-y", STABF, _edit_pauli_at, "inverse.block-conditions", "CNOT block"),
     Knockout("run-circuit-cnot-arguments-swapped", TR, sub_once("            tableau = cnot_gate(tableau, ops[1], ops[2])", "            tableau = cnot_gate(tableau, ops[2], ops[1])"), "reverse.table", "arguments"),
